@@ -1,6 +1,7 @@
 package main
 
 import (
+	"bytes"
 	"encoding/json"
 	"flag"
 	"fmt"
@@ -78,6 +79,7 @@ func init() {
 	register("migrate-len", func(args []string) error {
 		fs := flag.NewFlagSet("migrate-len", flag.ExitOnError)
 		planPath := fs.String("plan", "", "plan with one history of one migrate op")
+		wantEnds := fs.Bool("ends", false, "print the byte offsets just after every array element instead")
 		fs.Parse(args)
 		var plan storePlan
 		if err := readJSON(*planPath, &plan); err != nil {
@@ -115,6 +117,17 @@ func init() {
 					doc["signatures"] = []detection.Signature{}
 				}
 				data, _ := json.MarshalIndent(doc, "", " ")
+				if *wantEnds {
+					// elements of the "signatures" array are the objects at indent 2: a line "  }" or "  },"
+					off := 0
+					for _, ln := range bytes.Split(data, []byte("\n")) {
+						if string(ln) == "  }" || string(ln) == "  }," {
+							out = append(out, off+3)
+						}
+						off += len(ln) + 1
+					}
+					continue
+				}
 				out = append(out, len(data))
 			}
 		}
